@@ -38,14 +38,48 @@ Proof.
   intros H. destruct (H 1 empty_info eq_refl) as [X|X]; apply X; reflexivity.
 Qed.
 
-(** 2. the matcher decides the declarative glob (star, question mark, escape), unbounded *)
+(** 2. the matcher decides the declarative glob (star, question mark, escape and - after the
+    repair eb2d54d - the character classes [..], [^..] with ranges x-y), for all patterns and
+    all texts, unbounded.  [GlobSpec] (Proofs/PsGlobFacts.v): a class runs from '[' to the first
+    ']' after it; its items are read left to right, `x-y` is a range when at least three bytes
+    remain and the middle one is '-'; a leading '^' negates; a '[' without a closing ']'
+    matches nothing. *)
 Theorem c14_glob_correct : forall p s, ps_match p s = true <-> GlobSpec p s.
 Proof. exact ps_match_correct. Qed.
 
-(** the matcher has no [...] classes (F-14b) *)
-Theorem c14_glob_class_refuted :
-  ps_match (bs "[n]ews") (bs "news") = false /\ ps_match (bs "[n]ews") (bs "[n]ews") = true.
-Proof. vm_compute. split; reflexivity. Qed.
+(** the loop over the items of a class body (with its early exit) decides membership in the
+    union of the items; the class test decides [class_accepts] *)
+Theorem c14_glob_class_items : forall body c,
+  class_loop body c = true <-> exists lo hi, In (lo, hi) (class_items body) /\ lo <= c <= hi.
+Proof. intros body c. exact (class_loop_iff _ body c (le_n _)). Qed.
+Theorem c14_glob_class_accepts : forall inner c, class_ok inner c = true <-> class_accepts inner c.
+Proof. exact class_ok_iff. Qed.
+
+(** formerly F-14b (class pubsub-glob-class, fixed by eb2d54d): the witnesses of the finding and
+    the corner cases of the class syntax, evaluated by the kernel *)
+Example c14_glob_class_witness :
+  ps_match (bs "[n]ews") (bs "news") = true /\ ps_match (bs "[n]ews") (bs "[n]ews") = false /\
+  ps_match (bs "h[^e]llo") (bs "hallo") = true /\ ps_match (bs "h[^e]llo") (bs "hello") = false /\
+  ps_match (bs "h[a-c]llo") (bs "hbllo") = true /\ ps_match (bs "h[a-c]llo") (bs "hdllo") = false /\
+  ps_match (bs "*[0-9]") (bs "ab7c9") = true /\                 (* a failed class falls back to the star *)
+  ps_match (bs "[abc") (bs "[abc") = false /\ ps_match (bs "[abc") (bs "a") = false /\   (* unterminated *)
+  ps_match (bs "[]a]") (bs "a]") = false /\ ps_match (bs "[]") (bs "]") = false /\     (* ']' first: empty class *)
+  ps_match (bs "[^]") (bs "x") = true /\ ps_match (bs "[^]]") (bs "x]") = true /\      (* empty negated class *)
+  ps_match (bs "[a-]") (bs "-") = true /\ ps_match (bs "[a-]") (bs "b") = false /\     (* '-' at the end is a member *)
+  ps_match (bs "[\]") (bs "\") = true /\                        (* backslash inside a class is a member *)
+  ps_match (bs "\[n]ews") (bs "[n]ews") = true.                 (* escaped bracket *)
+Proof. vm_compute. repeat split; reflexivity. Qed.
+
+(** finding glob-class-end (open): where the class syntax differs from Redis.  The first ']'
+    ends a class and there are no escapes inside one: `h[\]]llo` is the class `\` followed by
+    the literal `]llo` (Redis: the class `]`); an unterminated class matches nothing (Redis: it
+    runs to the end of the pattern); a reversed range is empty (Redis swaps its ends).
+    [GlobSpec] states the rule as coded. *)
+Example c14_glob_class_end_refuted :
+  ps_match (bs "h[\]]llo") (bs "h]llo") = false /\ ps_match (bs "h[\]]llo") (bs "h\]llo") = true /\
+  ps_match (bs "[abc") (bs "a") = false /\ ps_match (bs "[abc") (bs "[abc") = false /\
+  ps_match (bs "[z-a]") (bs "m") = false.
+Proof. vm_compute. repeat split; reflexivity. Qed.
 
 (** 3. delivery (pubsub.rs publish after the repair 4d06fbe): the receiver list of PUBLISH is
     exactly the set of (connection, matching subscription) pairs, each once - one `message` for a
